@@ -9,7 +9,7 @@ FAMS = {"SW": 16, "PI": 90, "MP": 20, "CT": 80, "XO": 12}
 
 def gen(ctx, fam, tags):
     cfg = "SPECIFICATION Spec\nCONSTANTS\n  Family = \"%s\"\n  Tags = %s\n" % (fam, tags)
-    return pipeline.gen_tlc(ctx, "OFSwGen", cfg, "OFSwGen[%s]" % fam, fam, expect_min=FAMS[fam] // 2, workers=8, xmx="8g")
+    return pipeline.gen_tlc(ctx, "OFSwGen", cfg, "OFSwGen[%s]" % fam, fam, expect_min=FAMS.get(fam, 2) // 2, workers=8, xmx="12g")
 
 
 def run(ctx, prop, tags_quick="{7}", tags_thorough="{7, 61, 1000, 2000, 3000}"):
